@@ -327,6 +327,11 @@ pub fn holds_for_access(x: usize, write: bool) -> bool {
 }
 
 thread_local! { static BOMB: std::cell::Cell<Option<usize>> = const { std::cell::Cell::new(None) }; }
+thread_local! { static ERR_FIRED: std::cell::Cell<bool> = const { std::cell::Cell::new(false) }; }
+/// did the payload return `Err(fmt::Error)` since the last call? (resets)
+pub fn take_err_fired() -> bool {
+	ERR_FIRED.with(|b| b.replace(false))
+}
 pub fn set_bomb(b: Option<usize>) {
 	BOMB.with(|c| c.set(b));
 }
@@ -348,6 +353,12 @@ impl std::fmt::Debug for Val {
 				BOMB.with(|b| b.set(None));
 				log("m7".to_string());
 				panic!("payload Debug panics");
+			}
+			// … or returns Err(fmt::Error) (bomb = x + 1000): `format!` will panic at the end
+			if BOMB.with(|b| b.get()) == Some(x + 1000) {
+				BOMB.with(|b| b.set(None));
+				ERR_FIRED.with(|b| b.set(true));
+				return Err(std::fmt::Error);
 			}
 		}
 		write!(f, "{}", self.0)
